@@ -1,4 +1,7 @@
 import PEval.Lemmas.MatchingResults
+import PEval.Properties.KernelMatchable
+import PEval.Properties.KernelBetter
+import PEval.Properties.KernelCell
 /-!
 # C01 — matching is one-to-one and accounts for every estimate
 
